@@ -16,6 +16,7 @@ var (
 // GobTypesHashReset resets types hash to zero value.
 func GobTypesHashReset() {
 	gobTypesHash = 0
+	gobTypes = nil // Types registered after the reset contribute to the hash again.
 }
 
 // GobTypesHash returns a fingerprint of a group of types to transfer.
